@@ -25,9 +25,11 @@ VARIABLES tk,       \* token id -> [label, so, user, objs, fresh]; objs: object 
           login,    \* token id -> "none" | "user" | "so"   (for the tokens in tk)
           issued,   \* session handles issued since the last C_Initialize
           gone,     \* object tags destroyed or wiped so far (history)
+          low,      \* token id -> [u, s]: the CKF_USER_PIN_COUNT_LOW / CKF_SO_PIN_COUNT_LOW status flags ("an incorrect
+                    \* PIN has been entered since the last successful authentication"); persistent, like the PINs
           rv
 
-vars  == <<tk, up, sess, login, issued, gone, rv>>
+vars  == <<tk, up, sess, login, issued, gone, low, rv>>
 state == <<tk, up, sess, login, issued, gone>>
 
 Ext(f, k, v)   == [x \in (DOMAIN f) \cup {k} |-> IF x = k THEN v ELSE f[x]]
@@ -42,10 +44,16 @@ StateOfH(h)    == StateOf(sess[h].k, sess[h].rw)
 \* deleted tokens are remembered in gone as negative numbers so that token ids are never reused
 TokGone(k)     == 0 - k
 
-Fail(code) == rv' = code /\ UNCHANGED state
-Ok         == rv' = "OK"
+\* (the status flags are not part of `state`: a rejected PIN is the one thing a failing call records)
+Fail(code) == rv' = code /\ UNCHANGED state /\ UNCHANGED low
+Ok         == rv' = "OK" /\ UNCHANGED low
+Clean      == [u |-> FALSE, s |-> FALSE]
+\* a wrong PIN of user type who (field "u" or "s") on token k: nothing changes but the flag
+WrongPin(k, who) == rv' = "PIN_INCORRECT" /\ UNCHANGED state /\ low' = [low EXCEPT ![k][who] = TRUE]
+\* success that (re)sets flags of token k
+OkLow(k, rec)    == rv' = "OK" /\ low' = Ext(low, k, rec)
 
-Init == /\ tk = <<>> /\ up = TRUE /\ sess = <<>> /\ login = <<>> /\ issued = {} /\ gone = {} /\ rv = "OK"
+Init == /\ tk = <<>> /\ up = TRUE /\ sess = <<>> /\ login = <<>> /\ issued = {} /\ gone = {} /\ low = <<>> /\ rv = "OK"
 
 -----------------------------------------------------------------------------
 (* Token initialisation *)
@@ -57,16 +65,18 @@ InitFresh(k, pin, lab) ==
        ELSE /\ k \notin DOMAIN tk /\ TokGone(k) \notin gone
             /\ tk'    = Ext(tk, k, [label |-> lab, so |-> pin, user |-> "nopin", objs |-> <<>>, fresh |-> TRUE])
             /\ login' = Ext(login, k, "none")
-            /\ Ok /\ UNCHANGED <<up, sess, issued, gone>>
+            /\ OkLow(k, Clean) /\ UNCHANGED <<up, sess, issued, gone>>
 
 \* C_InitToken on an initialised token
 ReInit(k, pin, lab) ==
     /\ up /\ k \in DOMAIN tk
     /\ IF SessionsOf(k) # {} THEN Fail("SESSION_EXISTS")
-       ELSE IF ~PinLenOK(pin) \/ pin # tk[k].so THEN Fail("PIN_INCORRECT")
+       ELSE IF ~PinLenOK(pin) THEN Fail("PIN_INCORRECT")
+       ELSE IF pin # tk[k].so THEN WrongPin(k, "s")
+       \* the user PIN is removed and with it its status; the SO has just authenticated
        ELSE /\ tk'   = [tk EXCEPT ![k].label = lab, ![k].user = "nopin", ![k].objs = <<>>]
             /\ gone' = gone \cup DOMAIN tk[k].objs
-            /\ Ok /\ UNCHANGED <<up, sess, login, issued>>
+            /\ OkLow(k, Clean) /\ UNCHANGED <<up, sess, login, issued>>
 
 \* C_Finalize followed by C_Initialize in the same process
 Restart ==
@@ -92,7 +102,7 @@ UtilInit(k, so, user, lab) ==
     /\ k \notin DOMAIN tk /\ TokGone(k) \notin gone
     /\ tk'    = Ext(tk, k, [label |-> lab, so |-> so, user |-> user, objs |-> <<>>, fresh |-> FALSE])
     /\ login' = Ext(login, k, "none")
-    /\ Ok /\ UNCHANGED <<up, sess, issued, gone>>
+    /\ OkLow(k, Clean) /\ UNCHANGED <<up, sess, issued, gone>>
 
 \* softhsm2-util --delete-token --token <label>   (library down)
 UtilDelete(k) ==
@@ -100,7 +110,7 @@ UtilDelete(k) ==
     /\ tk'    = Without(tk, {k})
     /\ login' = Without(login, {k})
     /\ gone'  = gone \cup DOMAIN tk[k].objs \cup {TokGone(k)}
-    /\ Ok /\ UNCHANGED <<up, sess, issued>>
+    /\ rv' = "OK" /\ low' = Without(low, {k}) /\ UNCHANGED <<up, sess, issued>>
 
 -----------------------------------------------------------------------------
 (* Sessions and login (as in P11Core) *)
@@ -132,12 +142,14 @@ Login(h, u, pin) ==
             IF u = "so" THEN
                  IF \E g \in SessionsOf(k) : ~sess[g].rw THEN Fail("SESSION_READ_ONLY_EXISTS")
                  ELSE IF login[k] # "none" THEN Fail("USER_ALREADY_OR_ANOTHER")
-                 ELSE IF pin # tk[k].so THEN Fail("PIN_INCORRECT")
-                 ELSE login' = [login EXCEPT ![k] = "so"] /\ Ok /\ UNCHANGED <<tk, up, sess, issued, gone>>
+                 ELSE IF pin # tk[k].so THEN WrongPin(k, "s")
+                 ELSE /\ login' = [login EXCEPT ![k] = "so"] /\ OkLow(k, [low[k] EXCEPT !.s = FALSE])
+                      /\ UNCHANGED <<tk, up, sess, issued, gone>>
             ELSE IF login[k] # "none" THEN Fail("USER_ALREADY_OR_ANOTHER")
                  ELSE IF tk[k].user = "nopin" THEN Fail("USER_PIN_NOT_INITIALIZED")
-                 ELSE IF pin # tk[k].user THEN Fail("PIN_INCORRECT")
-                 ELSE login' = [login EXCEPT ![k] = "user"] /\ Ok /\ UNCHANGED <<tk, up, sess, issued, gone>>
+                 ELSE IF pin # tk[k].user THEN WrongPin(k, "u")
+                 ELSE /\ login' = [login EXCEPT ![k] = "user"] /\ OkLow(k, [low[k] EXCEPT !.u = FALSE])
+                      /\ UNCHANGED <<tk, up, sess, issued, gone>>
 
 Logout(h) ==
     /\ up
@@ -149,7 +161,8 @@ InitPIN(h, pin) ==
     /\ IF h \notin DOMAIN sess THEN Fail("SESSION_HANDLE_INVALID")
        ELSE IF StateOfH(h) # "RW_SO" THEN Fail("USER_NOT_LOGGED_IN")
        ELSE IF ~PinLenOK(pin) THEN Fail("PIN_LEN_RANGE")
-       ELSE tk' = [tk EXCEPT ![sess[h].k].user = pin] /\ Ok /\ UNCHANGED <<up, sess, login, issued, gone>>
+       ELSE /\ tk' = [tk EXCEPT ![sess[h].k].user = pin] /\ OkLow(sess[h].k, [low[sess[h].k] EXCEPT !.u = FALSE])
+            /\ UNCHANGED <<up, sess, login, issued, gone>>
 
 SetPIN(h, old, new) ==
     /\ up
@@ -157,11 +170,13 @@ SetPIN(h, old, new) ==
        ELSE IF ~PinLenOK(new) THEN Fail("PIN_LEN_RANGE")
        ELSE LET k == sess[h].k  st == StateOfH(h) IN
             IF st \in {"RW_PUBLIC", "RW_USER"} THEN
-                 IF tk[k].user = "nopin" \/ old # tk[k].user THEN Fail("PIN_INCORRECT")
-                 ELSE tk' = [tk EXCEPT ![k].user = new] /\ Ok /\ UNCHANGED <<up, sess, login, issued, gone>>
+                 IF tk[k].user = "nopin" \/ old # tk[k].user THEN WrongPin(k, "u")
+                 ELSE /\ tk' = [tk EXCEPT ![k].user = new] /\ OkLow(k, [low[k] EXCEPT !.u = FALSE])
+                      /\ UNCHANGED <<up, sess, login, issued, gone>>
             ELSE IF st = "RW_SO" THEN
-                 IF old # tk[k].so THEN Fail("PIN_INCORRECT")
-                 ELSE tk' = [tk EXCEPT ![k].so = new] /\ Ok /\ UNCHANGED <<up, sess, login, issued, gone>>
+                 IF old # tk[k].so THEN WrongPin(k, "s")
+                 ELSE /\ tk' = [tk EXCEPT ![k].so = new] /\ OkLow(k, [low[k] EXCEPT !.s = FALSE])
+                      /\ UNCHANGED <<up, sess, login, issued, gone>>
             ELSE Fail("SESSION_READ_ONLY")
 
 -----------------------------------------------------------------------------
@@ -189,7 +204,7 @@ DestroyObj(h, o) ==
             /\ Ok /\ UNCHANGED <<up, sess, login, issued>>
 
 -----------------------------------------------------------------------------
-TypeOK == /\ DOMAIN login = DOMAIN tk
+TypeOK == /\ DOMAIN login = DOMAIN tk /\ DOMAIN low = DOMAIN tk
           /\ \A h \in DOMAIN sess : sess[h].k \in DOMAIN tk
           /\ ~up => sess = <<>>
 NoROwithSO        == \A h \in DOMAIN sess : login[sess[h].k] = "so" => sess[h].rw
